@@ -171,7 +171,13 @@ class Gen:
                 self.emit(r.choice(["clear", "drain 1000", "retain 0"]))
                 self.contents = {}
             n = r.choice([0, 1, 2, len(self.contents) // 2, len(self.contents), len(self.contents) + 3])
-            self.emit(f"{c} {n}"); self.contents = {}
+            if r.random() < 0.4:
+                # consumed through for_each by a consumer that panics at its k-th call (or never)
+                k = r.choice([0, 1, 2, len(self.contents) // 2, 1000000, 1000000])
+                self.emit(f"{r.choice([c, c, 'drain'])}fold {r.choice([0, 0, 1, 2, len(self.contents) // 2])} {k}")
+            else:
+                self.emit(f"{c} {n}")
+            self.contents = {}
         elif c == "extractif":
             sel = [x for x in range(self.nkeys) if r.random() < 0.4]
             nsel = len([x for x in sel if x in self.contents])
@@ -188,6 +194,37 @@ class Gen:
             self.emit(f"{c} {r.choice([0, 1, 2, 3, 7, 8, 14, 15, 28, 29, 56, 57, r.randrange(0, 4 * (len(self.contents) + 4))])}")
         elif c == "withcap":
             self.emit(f"withcap {r.choice([0, 1, 3, 4, 7, 8, 14, 15, 28, 29, 56, 100])}"); self.contents = {}
+
+def make_shrink_script(rng, name, kind=None):
+    """C08: shrink_to(m) / shrink_to_fit on tables whose capacity() has been lowered by tombstones:
+    fill to the full load of 16 / 32 / 64 / 128 buckets (with_capacity or growth), remove most keys
+    one by one under colliding hashes (DELETED bytes: capacity() = len + growth_left drops far below
+    what the bucket array could hold), then shrink to an m anywhere in [0, filled] -- in particular
+    len <= capacity() <= m < full capacity of a smaller table."""
+    kind = kind or rng.choice(["map-drop", "map-plain"])
+    plan = rng.choice(["zero", "max", "lowpos", "twotags", "sametag", "mix", "seq", "wrap"])
+    n = rng.choice([7, 14, 28, 56, 112, 20, 40, 100])
+    g = Gen(rng, n + 6, plan, kind)
+    g.resync = False; g.many = False; g.forget = False
+    g.header()
+    if rng.random() < 0.5:
+        g.emit(f"withcap {n}")
+    for k in range(n):
+        g.op_insert(k)
+    keepn = rng.choice([0, 0, 1, 2, 3, 5, n // 8, n // 4])
+    order = list(range(n)); rng.shuffle(order)
+    for k in order[:n - keepn]:
+        g.op_remove(k)
+    g.emit("len"); g.emit("capacity"); g.emit("allocsize")
+    m = rng.choice([0, keepn, keepn + 1, rng.randrange(0, n + 1), rng.randrange(0, n + 1), rng.randrange(0, n // 2 + 1), n])
+    g.emit(rng.choice([f"shrinkto {m}", f"shrinkto {m}", f"shrinkto {m}", "shrinktofit"]))
+    g.emit("len"); g.emit("capacity"); g.emit("allocsize"); g.emit("iter")
+    for k in rng.sample(range(n + 4), min(n + 4, rng.choice([1, 3, n // 2 + 1]))):
+        g.op_insert(k)
+    g.emit("shrinktofit"); g.emit("capacity"); g.emit("allocsize")
+    for k in rng.sample(range(n + 4), min(4, n)):
+        g.emit(rng.choice(["get", "contains", "getkv"]) + f" {k}")
+    return f"=== {name} plan={plan} nkeys={n + 6}\n" + "\n".join(g.lines) + "\n"
 
 ARMS = ["hashpanic_nth", "hashpanic_nth", "hashpanic_key", "eqpanic_nth", "droppanic_nth", "clonepanic_nth", "predpanic_nth", "refuse_nth"]
 
@@ -594,6 +631,13 @@ def make_removal_script(rng, name, kind=None):
                 g.op_remove(k)
         live = list(g.contents)
         c = rng.choice(["retain", "retain", "extractif", "extractif", "drain"])
+        armed = False
+        if rng.random() < 0.4:
+            # a destructor (of a rejected / undelivered element) or the predicate panics part-way
+            if kind == "map-drop" and c != "extractif":
+                g.emit(f"arm droppanic_nth {rng.choice([0, 0, 0, 1, 2])}"); armed = True
+            elif c != "drain":
+                g.emit(f"arm predpanic_nth {rng.choice([0, 1, 2, 5, 9])}"); armed = True
         if c == "retain":
             mode = rng.choice(["none", "one", "some", "all"])
             keep = [] if mode == "none" else ([rng.choice(live)] if mode == "one" and live else ([x for x in live if rng.random() < 0.5] if mode == "some" else live))
@@ -612,6 +656,9 @@ def make_removal_script(rng, name, kind=None):
                 g.emit("clear"); g.contents = {}
         else:
             g.emit(f"drain {rng.choice([0, 1, len(live) // 2, len(live), len(live) + 3])}"); g.contents = {}
+        if armed:
+            # the operation may have unwound: observe, then start again from a known state
+            g.emit("len"); g.emit("iter"); g.emit("clear"); g.contents = {}
         g.emit("len"); g.emit("capacity"); g.emit("iter")
         # refill: bookkeeping errors (growth_left, items) show up as wrong capacity / growth / lookups
         for k in rng.sample(range(n + 4), min(n + 4, rng.choice([1, 3, n // 2 + 1, n + 4]))):
